@@ -71,6 +71,7 @@ def run(v):
     fam += D.alt_pos_family(SEED + 121, 8 if q else 40) + D.alt_env_family(SEED + 122, 8 if q else 40) + \
         D.tree_group_family(SEED + 123, 8 if q else 40, kinds=("alt", "adj")) + D.flagguard_family(SEED + 124, 6 if q else 18) + \
         D.catch_family(SEED + 125, 6 if q else 18)
+    D.api_variants(fam, SEED + 126)
     recs, t = judge_render(v, "C12", hbin, fam, "h")
     levels = len(recs)
     samples = [{"def": r["def"], "path": r["path"], "items": r["items"][:12]} for r in recs[5:8]]
